@@ -23,7 +23,7 @@ REQUIRED = ["prep_checked:dominion", "prep_checked:hart", "prep_rejections_check
             "second_lookup_in_same_manifest", "cvr_identifiers_with_zero_padded_card_numbers",
             "sampled_phantom_cvrs_with_another_identifier_prefix", "lookups_with_repeated_sample_numbers", "manifest_columns_not_in_canonical_order",
             "manifest_counts_stored_unsigned_narrow_or_float", "manifest_already_carries_a_cumulative_count_column",
-            "sample_given_as_a_series_with_other_row_labels"]
+            "sample_given_as_a_series_with_other_row_labels", "cvrs_whose_tally_pool_is_not_their_own_batch"]
 ASSUMPTIONS = ["unique (tabulator, batch) labels per manifest", "Dominion lookup is 1-based, Hart lookup 0-based, as each "
                "vendor module documents and its test pins", "phantom CVR ids use the documented prefix 'phantom-1-'"]
 N_CASES = {"quick": 8000, "thorough": 64000}
@@ -123,6 +123,7 @@ def run_shard(spec, rec):
         case["phantom_prefix"] = rng.choice(("phantom-1-", "phantom-1-", "ph-1-", "Phantom-2-"))
         case["stale_cum"] = rng.random() < 0.15
         case["sample_container"] = rng.choice(("list", "list", "array", "series", "series_relabelled"))
+        case["tally_pool_mode"] = rng.choice((None, None, "own", "merged", "precinct"))
         run_case(case, rec)
 
 
@@ -319,6 +320,15 @@ def run_case(case, rec):
             # card_in_batch is a separate attribute (set_card_in_batch_lex makes it the 0-based lexicographic position):
             # identifiers must come from the CVR id whatever it holds
             c.card_in_batch = rng.choice((pos, pos - 1, None, pos + 100))
+            # the tally pool is an audit-side label (read_cvrs records tabulator-batch; ONEAudit may merge small batches
+            # into one pool, or pool by precinct): where a card is STORED is what its identifier says
+            tpm = case.get("tally_pool_mode")
+            if tpm == "own":
+                c.tally_pool = f"{tab}-{batch}"
+            elif tpm == "merged":
+                c.tally_pool = f"{enum[0][0]}-{enum[0][1]}"
+            elif tpm == "precinct":
+                c.tally_pool = "precinct-7"
             cvr_list.append(c)
         else:
             # Hart identifiers are built from the raw text of the export: the sheet number may be zero-padded
@@ -349,6 +359,18 @@ def run_case(case, rec):
     if sorted(m.id for m in mvr_ph2) != want_ph2 or any(not m.phantom for m in mvr_ph2):
         rec.violation("c17.cvrs", f"{vendor}:phantom_mvrs_wrong", {"got": sorted(m.id for m in mvr_ph2), "want": want_ph2})
         return
+    if vendor == "dominion":
+        if case.get("tally_pool_mode") in ("merged", "precinct"):
+            rec.count("cvrs_whose_tally_pool_is_not_their_own_batch")
+        # cart and tray are those of the card's own batch (the manifest row its identifier names)
+        where = {(str(r[tabcol]), str(r[batchcol])): (r["VBMCart.Cart number"], r["Tray #"]) for _, r in man.iterrows()}
+        for c in cards2:
+            if c[0] == "" and c[1] == "":
+                continue   # phantom
+            if (c[0], c[1]) != where.get((str(c[2]), str(c[3]))):
+                rec.violation("c17.cvrs", "dominion:card_sent_to_the_cart_and_tray_of_another_batch",
+                              {"card": [str(v) for v in c], "own_batch_is_in": [str(v) for v in where.get((str(c[2]), str(c[3])), ())]})
+                return
     ids_in_cards = sorted(str(c[5]) if vendor == "dominion" else str(c[-1]) for c in cards2)
     if ids_in_cards != sorted(cvr_list[i].id for i in picks):
         rec.violation("c17.cvrs", f"{vendor}:card_identifiers_do_not_match_cvrs", {"got": ids_in_cards[:8]})
